@@ -329,11 +329,15 @@ def ruleDateDOW(ts: datetime, date: Time, dow: Time) -> Time:
 # LatentX: handle time entities that are not grounded to a date yet
 # and assume the next date+time in the future
 @rule(predicate("isDOM"))
-def ruleLatentDOM(ts: datetime, dom: Time) -> Time:
-    dm = ts + relativedelta(day=dom.day)
-    if dm <= ts:
-        dm += relativedelta(months=1)
-    return Time(year=dm.year, month=dm.month, day=dm.day)
+def ruleLatentDOM(ts: datetime, dom: Time) -> Optional[Time]:
+    # next date after today with this day of month; relativedelta(day=N) would
+    # clip N to the length of the month ("31." in April -> 30.04.), so skip
+    # months that do not have the day
+    for months in range(0, 13):
+        dm = ts + relativedelta(months=months, day=dom.day)
+        if dm.day == dom.day and dm > ts:
+            return Time(year=dm.year, month=dm.month, day=dm.day)
+    return None
 
 
 @rule(predicate("isDOW"))
@@ -345,11 +349,14 @@ def ruleLatentDOW(ts: datetime, dow: Time) -> Time:
 
 
 @rule(predicate("isDOY"))
-def ruleLatentDOY(ts: datetime, doy: Time) -> Time:
-    dm = ts + relativedelta(month=doy.month, day=doy.day)
-    if dm < ts:
-        dm += relativedelta(years=1)
-    return Time(year=dm.year, month=dm.month, day=dm.day)
+def ruleLatentDOY(ts: datetime, doy: Time) -> Optional[Time]:
+    # next such date, today included; relativedelta(day=N) would clip "29.02."
+    # to 28.02. in a non-leap year, so skip years that do not have the day
+    for years in range(0, 9):
+        dm = ts + relativedelta(years=years, month=doy.month, day=doy.day)
+        if dm.day == doy.day and dm >= ts:
+            return Time(year=dm.year, month=dm.month, day=dm.day)
+    return None
 
 
 @rule(predicate("isPOD"))
